@@ -50,6 +50,10 @@ pub fn set_policy(f: Fill, scribble_on_free: bool, junk_seed: u64) {
     SCRIBBLE.with(|s| s.set(scribble_on_free));
     JUNK.with(|j| j.set(junk_seed | 1));
 }
+/// true when fresh bytes are decided by the simulator (any policy except `pass`)
+pub fn deterministic_fill() -> bool {
+    POLICY.with(|p| p.get()) != 0
+}
 pub fn reset_policy() {
     POLICY.with(|p| p.set(0));
     SCRIBBLE.with(|s| s.set(false));
